@@ -12,10 +12,22 @@
         7 `<tol> <x> <y> <z>`: tolerance and `shifted_position.as_cartesian_array()`
         8 captured point-source gains: `-` or `num/den ...`
    out: `ok <exit> <num/den> ... ; <within_bounds bits> ; <candidate bits> ; <closest index or -> ; <shifted az> <shifted el>`
-        (the last group is `-` for Cartesian positions) | `error <name> ; ...same groups` | `bad-op`. -/
+        (the last group is `-` for Cartesian positions) | `error <name> ; ...same groups` | `bad-op`.
+
+   Second operation, the concrete model (`Model/DirectSpeakersConcrete.lean`, NOTHING captured): eight fields
+        1 `C`
+        2-6 as fields 1-5 above
+        7 position as given: `p <az> <el> <dist> <horizontal> <vertical>` | `c <X> <Y> <Z> <horizontal> <vertical>`
+        8 `<tol>`
+   out: `ok <exit> <float64 bits as a decimal natural> ... ; <within_bounds bits> ; <candidate bits> ; <closest index or -> ;
+        <x> <y> <z>` (the last group: `shifted_position.as_cartesian_array()`, float64 bits)
+        | `error <name>` | `bad-op`.  Run over `Float` with the regenerated C10, C05 and C19 tables. -/
 import Earverif.Model.DirectSpeakers
 import Earverif.Model.DirectSpeakersGeom
+import Earverif.Model.DirectSpeakersConcrete
 import Earverif.Gen.C10_Tables
+import Earverif.Gen.C05_Tables
+import Earverif.Gen.C19_Tables
 import Earverif.Driver.Util
 open Earverif.DS Earverif.Driver
 
@@ -109,4 +121,62 @@ def answer (line : String) : String :=
     r.getD "bad-op"
   | _ => "bad-op"
 
-def main : IO Unit := lineLoop answer
+/-! ### the concrete model over `Float` -/
+
+def showF (x : Float) : String := toString x.toBits.toNat
+
+def convParams : Earverif.Conv.Params Float :=
+  Earverif.Conv.Params.ofTable Earverif.Gen.C19.mapping Earverif.Gen.C19.elTop Earverif.Gen.C19.elTopTilde 4096
+
+def parsePositionC? (ws : List String) : Option PositionC :=
+  match ws with
+  | ["p", az, el, d, h, v] => do
+    some (.polar (← parseBound? az) (← parseBound? el) (← parseBound? d) ⟨← parseOptLabel? h, ← parseOptLabel? v⟩)
+  | ["c", x, y, z, h, v] => do
+    some (.cart (← parseBound? x) (← parseBound? y) (← parseBound? z) ⟨← parseOptLabel? h, ← parseOptLabel? v⟩)
+  | _ => none
+
+def showCErr : CError → String
+  | .ds e => showErr e | .pspNone => "pspNone" | .edgeLock => "edgeLock" | .speakerTree => "speakerTree"
+
+def answerC (fields : List (List String)) : String :=
+  match fields with
+  | [[lname], packsW, labelsW, [lp, hp], [po, gain, og, mute], posW, [tol]] =>
+    let r : Option String := do
+      let E ← mkEnv Earverif.Gen.C10.layouts Earverif.Gen.C10.geoms Earverif.Gen.C10.alloPsp
+        Earverif.Gen.C05.layouts lname
+      let packs ← (match packsW with
+        | ["-"] => some none
+        | ["e"] => some (some [])
+        | ws => (ws.mapM parsePack?).map some)
+      let labels ← (match labelsW with
+        | ["-"] => some []
+        | ws => ws.mapM parseLabel?)
+      let b : Block := {
+        labels := labels, lowPass := ← parseOptRat? lp, highPass := ← parseOptRat? hp, packs := packs,
+        hasPositionOffset := ← parseBool? po, gain := ← parseRat? gain, objectGain := ← parseRat? og,
+        objectMute := ← parseBool? mute }
+      let pos ← parsePositionC? posW
+      let tol ← parseRat? tol
+      let geo : String :=
+        match (shift E convParams pos tol : Except CError (Shifted Float)) with
+        | .error _ => " ; - ; - ; - ; -"
+        | .ok s =>
+          let cand := candidates E.L (isLfeChannel b) s.wb
+          let cl := if cand.any id then closestIndexC s.positions s.cart cand (Earverif.GainCalc.k tol) else none
+          " ; " ++ showBits s.wb ++ " ; " ++ showBits cand ++ " ; " ++
+            (match cl with | some c => toString c | none => "-") ++ " ; " ++
+            showF s.cart.1 ++ " " ++ showF s.cart.2.1 ++ " " ++ showF s.cart.2.2
+      match (handleC Earverif.Gen.C10.rules Earverif.Gen.C10.ituPacks E convParams b pos tol :
+          Except CError (Exit × List Float)) with
+      | .ok (e, pv) => some ("ok " ++ showExit e ++ String.join (pv.map fun x => " " ++ showF x) ++ geo)
+      | .error e => some ("error " ++ showCErr e ++ geo)
+    r.getD "bad-op"
+  | _ => "bad-op"
+
+def answerAny (line : String) : String :=
+  match (line.splitOn "|").map words with
+  | ["C"] :: rest => answerC rest
+  | _ => answer line
+
+def main : IO Unit := lineLoop answerAny
